@@ -167,10 +167,14 @@ func ExecRPlan(p *RPlan, trace bool) *core.Result {
 	if p.Soak != nil {
 		// a long history, written down as its recipe: expand and interpret as usual
 		q := *p
+		k := *p.Soak
+		k.N, k.Huge = core.LongCap(k.N, 3000), core.LongCap(k.Huge, 3000)
+		q.Soak = &k
+		q.Ops = expandSoak(&q)
 		q.Soak = nil
-		q.Ops = expandSoak(p)
 		r := ExecRPlan(&q, trace && len(q.Ops) < 3000)
 		r.Probes[prSoak]++
+		r.Long = true
 		return r
 	}
 	res := &core.Result{Probes: make([]int, nRProbes), Faults: make([]int, nRFaults)}
